@@ -21,7 +21,7 @@ from ..pool import pmap
 META = {
     "level": "model_checking",
     "text": "TLC checks the HTML stack-machine model (children lists and parent pointers both in the state) for tree consistency, stack discipline, absence of crashes and exact round trip on balanced event sequences, for every event sequence within the bound; every behaviour is replayed through tokenize_html and the Element API (render, walk, strip, deepcopy, find), and soup/grammar inputs are validated as traces by TLC.",
-    "note": "Bound: event sequences <= 4 over 17 events (quick) / <= 5 (thorough) and <= 6 / 7 over 9 structural events; names a, b, img (void). 'Well-formed' is the module's own serialisation convention (lower-case names, one space, double-quoted values). The stdlib tokenizer (html.parser) is trusted to produce the events; marked sections (<![...) are outside the canonical language.",
+    "note": "Bound: event sequences <= 4 over 18 events and <= 5 (quick) / 6 (thorough) over 9 structural events, replayed; thorough adds TLC-only runs one level deeper (<= 5 / <= 7); names a, b, img (void). 'Well-formed' is the module's own serialisation convention (lower-case names, one space, double-quoted values). The stdlib tokenizer (html.parser) is trusted to produce the events; marked sections (<![...) are outside the canonical language.",
     "technique": "TLA+ spec + TLC exhaustive check; spec-behaviour replay into the code; TLC batch trace validation",
     "specs": ["HtmlAst", "HtmlAstTrace"],
 }
@@ -294,12 +294,16 @@ def run(ctx):
     def defs(evset):
         return {"EventsV": "{" + ", ".join(tlc.tla_expr(e) for e in evset) + "}"}
     recs = []
-    for name, evset, n in (("full", FULL, 4 if quick else 5), ("struct", STRUCT, 5 if quick else 7)):
-        r = tlc.run("HtmlAst", tlc.cfg(ctx, f"ha_{name}.cfg", consts(n), invariants=invs), wd=ctx.wd,
-                    coverage=False, timeout=3000, defs=defs(evset))
+    scopes = [("full", FULL, 4, True), ("struct", STRUCT, 5 if quick else 6, True)]
+    if not quick:
+        # one level deeper for TLC alone: the behaviours are checked against S but not exported (their replay would not fit in memory)
+        scopes += [("full5", FULL, 5, False), ("struct7", STRUCT, 7, False)]
+    for name, evset, n, emit in scopes:
+        r = tlc.run("HtmlAst", tlc.cfg(ctx, f"ha_{name}.cfg", consts(n), invariants=invs if emit else invs[:-1]), wd=ctx.wd,
+                    coverage=False, timeout=6000, defs=defs(evset), heap="16g")
         tlc.expect_holds(r, f"HtmlAst[{name}] M |= S")
-        ctx.add_tlc(f"HtmlAst_{name}", r, f"{len(evset)} events, sequences <= {n}")
-        if len(r.records) != r.distinct:
+        ctx.add_tlc(f"HtmlAst_{name}", r, f"{len(evset)} events, sequences <= {n}" + ("" if emit else " (TLC only, not replayed)"))
+        if emit and len(r.records) != r.distinct:
             raise tlc.MachineryFailure(f"HtmlAst[{name}]: {len(r.records)} behaviours exported for {r.distinct} states")
         recs += r.records
     r = tlc.run("HtmlAst", tlc.cfg(ctx, "ha_cov.cfg", consts(3), invariants=invs[:-1]), wd=ctx.wd, coverage=True, defs=defs(FULL))
